@@ -139,6 +139,11 @@ class FunctionCall(TypedExpression):
             return self.add_trivia(function_str, indent, inline)
 
         argument_expr = self.argument
+        if argument_expr.has_scope():
+            # `f let … in { … }` is not valid Nix: a let-wrapped argument needs parentheses.
+            from nix_manipulator.expressions.parenthesis import Parenthesis
+
+            argument_expr = Parenthesis(value=argument_expr)
         if self.argument_gap is None:
             preview = argument_expr.rebuild(indent=indent, inline=True)
             prefer_newline = not inline and indent > 0 and "\n" in preview
